@@ -883,7 +883,7 @@ pub fn run_prop(p: &Prop, cfg: &RunCfg, only_sub: Option<&str>) -> i32 {
 
     // second build (serde_json `preserve_order`): the quick tier again, with documents whose member order is arbitrary
     let mut po_stats = Value::Null;
-    if cfg.thorough && only_sub.is_none() && p.insertion_order_stage && !cfg!(feature = "preserve_order") {
+    if cfg.thorough && only_sub.is_none() && p.insertion_order_stage && !crate::json::value_keeps_insertion_order() {
         let exe = verif_dir().join("harness").join("target-po").join("release").join("jpv");
         if exe.exists() {
             let ts = std::time::Instant::now();
@@ -970,7 +970,7 @@ pub fn run_prop(p: &Prop, cfg: &RunCfg, only_sub: Option<&str>) -> i32 {
             "selftest_cases": selftests,
             "fuzz": fuzz_stats,
             "insertion_order_build": po_stats,
-            "member_order_of_value": if cfg!(feature = "preserve_order") { "insertion order (serde_json preserve_order)" } else { "sorted (serde_json default)" },
+            "member_order_of_value": if crate::json::value_keeps_insertion_order() { "insertion order (serde_json preserve_order)" } else { "sorted (serde_json default)" },
             "shards": SHARDS,
         },
         "assumptions": p.assumptions,
